@@ -33,7 +33,7 @@ DEPTH = {"quick": 4, "thorough": 5}
 
 def plan(tier, seed):
     cfgs = [{"depth": DEPTH[tier], "universe": "full", "procs": 16, "label": "full universe", "pid": PID, "mode": MODE}]
-    if tier == "thorough":
+    if tier == "thorough-extended":
         cfgs.append({"depth": DEPTH[tier] + 1, "universe": "small", "procs": 16, "label": "2-class universe, one more step", "pid": PID, "mode": MODE,
                      "max_states": 400000})
     return cfgs
